@@ -355,15 +355,34 @@ def _per_run(sc, v, tier, seed, which):
     _reject_to_violation(v, mine, _per_key)
 
 
+def _tag_check(sc, v):
+    """(c) the constraints in the struct tags against the hand transcription of TS 38.413 9.4.5 (Ngap38413Types.tla)"""
+    sc.build(["rec-build"])
+    schema = os.path.join(sc.work, "schema-tags.json")
+    sc.run("rec-build", ["-tier", "quick", "-out", os.path.join(sc.work, "b0.ndjson"), "-schema", schema])
+    d = sc.specdir()
+    r = vlib.run_tlc(d, "Ngap38413Types", vlib.cfg_text({"SchemaPath": schema}, post="Consumed"), timeout=600)
+    if not r.ok:
+        raise HarnessError("Ngap38413Types did not complete: " + r.error)
+    v.add_tlc([r])
+    absent = [p for p in r.prints if "ABSENT" in p]
+    v.extra["types_compared_with_TS38413"] = max(r.distinct - 1, 0) - len(absent)
+    v.evaluations += v.extra["types_compared_with_TS38413"]
+    for rj in r.rejects:
+        v.violation("tag:" + rj["id"], rj["why"], {"type": rj["id"], "why": rj["why"]})
+
+
 def check_C03(sc, v, tier, seed, replay):
     _per_run(sc, v, tier, seed, "C03")
+    _tag_check(sc, v)
     v.rule = ("(a) primitive schemas built with reflect.StructOf: INTEGER ranges lb in -3..3 x width 0..N exhaustively with values at/around "
               "both ends, ranges of size 2^k-1, 2^k, 2^k+1 for k <= 40, semi-/unconstrained, ENUMERATED 1..300, BIT/OCTET STRING bound pairs x "
               "ext x lengths at bounds and 127/128/129/300, SEQUENCE presence maps, SEQUENCE OF sizes, CHOICE 1..9 (and unset), each at "
               "several bit offsets; (b) every one of the 78 NGAP message types and 24 transfer containers with random in-constraint "
               "values generated by reflection (every 7th with deliberate violations); open types of length 0..16380; "
-              "distinct = distinct value tree")
-    v.assumptions = ["Per.tla is X.691 ALIGNED BASIC-PER; constraints are those of the struct tags (TS 38.413 cross-check on the emulator's path: C13/C01)",
+              "(c) the constraints of about 160 named simple types, list sizes and enumerations in the struct tags against a hand "
+              "transcription of TS 38.413 9.4.5; distinct = distinct value tree")
+    v.assumptions = ["Per.tla is X.691 ALIGNED BASIC-PER; constraints are those of the struct tags, themselves compared with TS 38.413 for the types of Ngap38413Types.tla (others are tag-trusted)",
                      "a value using an extension of an extensible constraint may be refused, but must be encoded per X.691 if encoded"]
 
 
